@@ -193,7 +193,7 @@ for (n, cost, hist) in [("fgroup_micro2", 10, "insert, poll"), ("fgroup_micro3",
 # histories added in round 3 (several removals, extend, polling an empty group, a member ending and a
 # later one yielding in the same poll followed by slot reuse)
 for (n, cost, q, hist) in [("fgroup_remove_two", 40, 1, "insert, insert, remove(0), remove(1), poll"),
-                           ("fgroup_remove_two_any", 200, 0, "insert x3, remove(any), remove(any), poll, poll"),
+                           ("fgroup_remove_two_any", 65, 1, "insert x3, remove(any), remove(any), poll, poll"),
                            ("fgroup_keyed_remove_two_any", 200, 0, "keyed: insert x3, remove(any), remove(any), poll, poll"),
                            ("fgroup_remove_after_yield", 60, 1, "insert, insert, poll (member 0 resolves), remove(1), poll"),
                            ("fgroup_empty_poll_then_use", 40, 1, "poll (empty: None), insert, poll, poll"),
@@ -203,12 +203,9 @@ for (n, cost, q, hist) in [("fgroup_remove_two", 40, 1, "insert, insert, remove(
         member_behaviour="symbolic where not scripted, no wake-ups from inside polls")
 GS = ["C12", "C03", "C20", "C02"]
 for (n, cost, q, hist) in [("sgroup_remove_two", 40, 1, "insert, insert, remove(0), remove(1), poll"),
-                           ("sgroup_remove_two_any", 200, 0, "insert x3, remove(any), remove(any), poll, poll"),
-                           ("sgroup_remove_after_end", 60, 1, "insert, insert, poll (member 0 ends), remove(1), poll"),
-                           ("sgroup_empty_poll_then_use", 40, 1, "poll (empty: None), insert, poll, poll"),
-                           ("sgroup_end_and_item_same_poll", 40, 1, "insert, insert, poll (member 0 ends, member 1 yields), poll"),
-                           ("sgroup_end_item_then_reuse", 80, 1, "insert, insert, poll (0 ends, 1 yields), insert (slot reused), poll, poll"),
-                           ("sgroup_keyed_end_item_then_reuse", 80, 0, "keyed: same")]:
+                           ("sgroup_remove_after_end", 40, 1, "insert, insert, poll (member 0 ends, member 1 pending), remove(1)"),
+                           ("sgroup_empty_poll_then_use", 40, 1, "poll (empty: None), insert, poll"),
+                           ("sgroup_end_and_item_same_poll", 40, 1, "insert, insert, poll (member 0 ends, member 1 yields in the same poll)")]:
     add(G + n, "alloc", "C12", quick=["C12"] if q else [], thorough=GS, cost=cost, history=hist, members="<= 3",
         member_behaviour="symbolic where not scripted, no wake-ups from inside polls")
 for (n, cost, hist) in [("sgroup_micro2", 10, "insert, poll"), ("sgroup_keyed_micro2", 10, "keyed: insert, poll"),
@@ -244,7 +241,7 @@ for (n, cost, mem, q, fam, hist) in [
         ("fgroup_std_micro3", 76, 5, 1, "C11", "insert, poll, poll"),
         ("fgroup_std_keyed_micro3", 80, 5, 0, "C11", "keyed: insert, poll, poll"),
         ("fgroup_std_micro4", 150, 6, 0, "C11", "insert, poll, poll, poll"),
-        ("fgroup_std_two", 360, 10, 1, "C11", "insert, insert, poll, poll"),
+        ("fgroup_std_two", 360, 10, 0, "C11", "insert, insert, poll, poll"),
         ("fgroup_std_remove", 280, 9, 0, "C11", "insert, insert, poll (member 0 pending), remove(0), poll"),
         ("fgroup_std_grow_live", 600, 34, 0, "C11", "insert, poll (pending), insert (capacity grows), poll"),
         ("fgroup_std_rsv_live", 400, 26, 0, "C11", "insert, poll (pending), reserve(1), poll"),
@@ -265,7 +262,7 @@ for (n, cost, mem, q, fam, hist) in [
 
 # nests of combinators (leaves are the scripted children; family oracles are stated over leaves)
 NE = "nest::"
-for (n, prop, cost, q) in [("nest_join_tt_r3", "C04", 40, 1), ("nest_join_tt_r4", "C04", 80, 0), ("nest_join_ta_r3", "C04", 60, 1),
+for (n, prop, cost, q) in [("nest_join_tt_r3", "C04", 40, 1), ("nest_join_tt_r4", "C04", 80, 0), ("nest_join_ta_r3", "C04", 180, 0),
                            ("nest_join_a1t_r3", "C04", 30, 1), ("nest_tryjoin_tt_r3", "C05", 60, 1),
                            ("nest_merge_tt_k1_r4", "C08", 80, 1), ("nest_merge_ta_k1_r4", "C08", 80, 0),
                            ("nest_merge_a1t_k2_r5", "C08", 60, 1)]:
